@@ -479,7 +479,7 @@ def pool_oracle(kind, lines, out, flags):
         elif w[0] == "pop_many":
             ctx, n = int(w[1]), int(w[2])
             if n == 0:
-                if head not in ("pop_many untouched", "pop_many 0:"):
+                if head != "pop_many 0:":      # "pop_many untouched" was finding F12 (fixed): *num must be written
                     return "line %d `%s`: reported %r for a zero-length request" % (i, l, head)
             else:
                 exp = []
